@@ -43,6 +43,7 @@ PROPS = {
             "Replicon.C01.C01_joiner_values",
             "Replicon.C01.C01_history_same_entities",
             "Replicon.C01.C01_history_same_entities_any_schedule",
+            "Replicon.C01.C01_history_same_components",
             "Replicon.C01.C01_known_finding_F4_witness",
             "Replicon.C01.C01_known_finding_F4_server_value",
         ],
@@ -72,7 +73,8 @@ PROPS = {
         "assumptions": ["partial: the invariant relating the server's belief to in-flight messages is not proved as one theorem. Known finding F20 tagged by the trace checker."],
     },
     "C03": {
-        "modules": ["Replicon.Props.C03"],
+        "modules": ["Replicon.Props.C03", "Replicon.Proofs.Sync", "Replicon.Proofs.ClientSync", "Replicon.Proofs.Session",
+                    "Replicon.Proofs.Kinds", "Replicon.Proofs.KindsSession", "Replicon.Proofs.ClientKinds", "Replicon.Proofs.TwoWay"],
         "theorems": [
             "Replicon.C03.C03_tick_monotone",
             "Replicon.C03.C03_tick_is_message_tick",
@@ -86,6 +88,8 @@ PROPS = {
             "Replicon.C03.C03_history_message_is_difference",
             "Replicon.C03.C03_history_frame_both_sides",
             "Replicon.C03.C03_history_session",
+            "Replicon.C03.C03_history_components",
+            "Replicon.C03.C03_history_structure",
         ],
         "profiles": [{"name": "sys", "shards": {"thorough": 8}}, {"name": "sys_vis", "shards": {"thorough": 8}}],
         "rule": SYS_RULE + LOCK + "For C03: oracle on the implementation after every client frame: the client's mapped entities (a consistent two-way map), their replicated component sets and markers equal the server snapshot at the client's ServerUpdateTick restricted to what is visible to it (placeholders created only by references / pre-spawn mappings excepted).",
@@ -93,7 +97,7 @@ PROPS = {
             "modelled, not verified: Bevy ECS (change detection as one logical clock, iteration orders as multisets, required components, observers), "
             "postcard encodings of the harness's component types; the models are compared with the real apps on every message and every client frame",
         ],
-        "assumptions": ['partial: the entity level of update_is_diff is proved for all histories; the component level (which components each entity has) is not proved as one theorem: per-section theorems + exact correspondence + oracle.'],
+        "assumptions": ['partial: entities, marker and component kinds are proved for all histories across both models (update messages in order); pre-spawn mappings and the interleaving with mutate messages at the component level are covered by per-section theorems + exact correspondence + oracle.'],
     },
     "C04": {
         "modules": ["Replicon.Props.C04"],
@@ -186,7 +190,7 @@ PROPS = {
         "assumptions": ["The theorems cover the decoders of the harness's channel kinds (fixint u16 acks, postcard varints, replicon's entity codec, Bevy's Entity::try_from_bits, trigger target lists); other event types use the same primitives plus serde-derived code that is not modelled."],
     },
     "C07": {
-        "modules": ["Replicon.Props.C07"],
+        "modules": ["Replicon.Props.C07", "Replicon.Proofs.ClientVals"],
         "theorems": [
             "Replicon.C07.C07_unauthorized_silent",
             "Replicon.C07.C07_full_state_on_authorization",
@@ -194,6 +198,7 @@ PROPS = {
             "Replicon.C07.C07_protocol_check",
             "Replicon.C07.C07_history",
             "Replicon.C07.C07_history_complete_state",
+            "Replicon.C07.C07_history_complete_state_values",
         ],
         "profiles": [{"name": "sys_auth", "shards": {"thorough": 8}}],
         "rule": SYS_RULE + LOCK + 'For C07 (profile sys_auth: AuthMethod::ProtocolCheck / Custom / None, clients that authorize late or never): oracle: no update or mutate message is ever addressed to a client without AuthorizedClient; after authorization the convergence oracle applies.',
@@ -289,6 +294,7 @@ PROPS = {
             "Replicon.C08.C08_run_decision",
             "Replicon.C08.C08_despawn",
             "Replicon.C08.C08_history_gain_lose",
+            "Replicon.C08.C08_history_gained_entity_values",
             "Replicon.C08.C08_known_finding_F14_witness",
             "Replicon.Vis.step_preserves",
         ],
@@ -446,7 +452,7 @@ PROPS = {
 
 MANIFEST_TEXT = {
     "C01": {
-        "text": "Per-run halves of the convergence argument are Lean theorems about the protocol models: progress (an entity the client lacks is sent whole; a value newer than the server's belief is sent whenever its rate fires; a visible despawned entity is in DESPAWNS) and stability (nothing pending and nothing to say => the run sends nothing and changes nothing; a client frame without messages changes nothing). Across both models: a client that joins a quiescent server holds, after one perfect round, every replicated entity with exactly the server's replicated components and values and nothing else (C01_joiner_converges, C01_joiner_values: the server model's message applied by the client model, for every server world; blacklist, no entity-valued components). Over ALL histories of the joint model and across both models the client model fed a session's update messages in order holds exactly the marked entities visible to it (C01_history_same_entities), also with arbitrary mutate messages — lost, duplicated, reordered, stale — arriving anywhere in between (C01_history_same_entities_any_schedule). For values, the induction joining progress and stability over arbitrary histories with an already known client (C01_converges_partial) is NOT proved; convergence and absence of panics are checked on the implementation at the end of every generated trace, with both models in lock step (0 disagreements required).",
+        "text": "Per-run halves of the convergence argument are Lean theorems about the protocol models: progress (an entity the client lacks is sent whole; a value newer than the server's belief is sent whenever its rate fires; a visible despawned entity is in DESPAWNS) and stability (nothing pending and nothing to say => the run sends nothing and changes nothing; a client frame without messages changes nothing). Across both models: a client that joins a quiescent server holds, after one perfect round, every replicated entity with exactly the server's replicated components and values and nothing else (C01_joiner_converges, C01_joiner_values: the server model's message applied by the client model, for every server world; blacklist, no entity-valued components). Over ALL histories of the joint model and across both models the client model fed a session's update messages in order holds exactly the marked entities visible to it (C01_history_same_entities), also with arbitrary mutate messages — lost, duplicated, reordered, stale — arriving anywhere in between (C01_history_same_entities_any_schedule), and fed the update messages in order it has on every entity exactly the replicated component kinds the server entity carries (C01_history_same_components). For values, the induction joining progress and stability over arbitrary histories with an already known client (C01_converges_partial) is NOT proved; convergence and absence of panics are checked on the implementation at the end of every generated trace, with both models in lock step (0 disagreements required).",
         "design_ref": "DESIGN.md §7 C01",
         "note": 'partial: the end-to-end convergence theorem is replaced by per-run theorems + oracle on the implementation + exact model correspondence. Known findings F4 (periodic) and F20 (tick-0 race) are reported, tagged by the trace checker.',
         "technique": "Lean 4 proof (per-run theorems about executable server/client protocol models) + lock-step model/implementation correspondence on real traces + property oracle on the implementation",
@@ -458,7 +464,7 @@ MANIFEST_TEXT = {
         "technique": "Lean 4 proof (per-run theorems about executable server/client protocol models) + lock-step model/implementation correspondence on real traces + property oracle on the implementation",
     },
     "C03": {
-        "text": "Lean theorems about the protocol models: ServerUpdateTick is the tick of the last applied update message and never decreases for in-order messages; a hidden entity contributes nothing; an entity new to the client is sent whole in one record; a visible entity that left replication is in DESPAWNS; an entity with an insertion/removal gets its pending mutations in the same record; the target of a CHANGES record is marked. Server order over ALL histories of the joint server model (C03_history_server_order): an update message sent to a client carries a tick larger than every update message sent to it before in its session. Which entities a client holds, over ALL histories and across both models (Proofs/Sync.lean, ClientSync.lean, Session.lean): after every replication run the server tracks for every authorized client exactly the marked entities visible to it (C03_history_entities); the run's DESPAWNS/CHANGES are exactly the difference of the tracked sets (C03_history_message_is_difference); the client model applying that message holds the tracked set again (C03_history_frame_both_sides); and the client model fed a whole session's update messages in order holds exactly the server's view, no section of any message failing (C03_history_session; hypotheses on histories: entity ids not reused, a stopped server sees a frame before a restart, no pre-spawn mappings). The component level of 'structure = view at update tick' (C03_structure_partial) is checked as an oracle on the implementation after every client frame, with both models in lock step.",
+        "text": "Lean theorems about the protocol models: ServerUpdateTick is the tick of the last applied update message and never decreases for in-order messages; a hidden entity contributes nothing; an entity new to the client is sent whole in one record; a visible entity that left replication is in DESPAWNS; an entity with an insertion/removal gets its pending mutations in the same record; the target of a CHANGES record is marked. Server order over ALL histories of the joint server model (C03_history_server_order): an update message sent to a client carries a tick larger than every update message sent to it before in its session. Which entities a client holds, over ALL histories and across both models (Proofs/Sync.lean, ClientSync.lean, Session.lean): after every replication run the server tracks for every authorized client exactly the marked entities visible to it (C03_history_entities); the run's DESPAWNS/CHANGES are exactly the difference of the tracked sets (C03_history_message_is_difference); the client model applying that message holds the tracked set again (C03_history_frame_both_sides); and the client model fed a whole session's update messages in order holds exactly the server's view, no section of any message failing (C03_history_session; hypotheses on histories: entity ids not reused, a stopped server sees a frame before a restart, no pre-spawn mappings). Which components, over ALL histories: replaying the DESPAWNS/REMOVALS/CHANGES records of a session for one entity gives exactly the replicated component kinds the server entity carries (C03_history_components; invariant about Bevy's added ticks, the two-frame retention of removal events and the removal buffer), and that is what the client model has on its entity; the replayed client's entity map is a consistent two-way map (TwoWay); C03_history_structure puts entities, marker, components and the two-way map together. What is left of 'structure = view at update tick' (C03_structure_partial: pre-spawn mappings, interleaving with mutate messages at the component level) is checked as an oracle on the implementation after every client frame, with both models in lock step.",
         "design_ref": "DESIGN.md §7 C03",
         "note": 'partial: update_is_diff for every reachable server state is not proved as one theorem; per-section theorems + exact correspondence + oracle.',
         "technique": "Lean 4 proof (per-run theorems about executable server/client protocol models) + lock-step model/implementation correspondence on real traces + property oracle on the implementation",
@@ -488,7 +494,7 @@ MANIFEST_TEXT = {
         "technique": "Lean 4 proof (totality, panic-freedom and proportionality of an executable model of the decoders) + differential comparison of decoders on injected bytes against the live server + panic/abort/allocation oracles on the implementation",
     },
     "C07": {
-        "text": 'Lean theorems about the server model: a replication run produces output only for authorized clients (C07_unauthorized_silent); a freshly authorized client is sent every non-hidden replicated entity whole (C07_full_state_on_authorization, C07_authorize_fresh); check_protocol authorizes exactly on equal hashes and otherwise notifies and requests a disconnect (C07_protocol_check). Over ALL histories of the joint server model, the next frame hands the transport replication messages and dependent events only for clients authorized in the state the history led to (C07_history), and a client the server tracks nothing for yet is sent, in the next run, a CHANGES record for every marked entity visible to it (C07_history_complete_state).',
+        "text": 'Lean theorems about the server model: a replication run produces output only for authorized clients (C07_unauthorized_silent); a freshly authorized client is sent every non-hidden replicated entity whole (C07_full_state_on_authorization, C07_authorize_fresh); check_protocol authorizes exactly on equal hashes and otherwise notifies and requests a disconnect (C07_protocol_check). Over ALL histories of the joint server model, the next frame hands the transport replication messages and dependent events only for clients authorized in the state the history led to (C07_history), and a client the server tracks nothing for yet is sent, in the next run, a CHANGES record for every marked entity visible to it (C07_history_complete_state), and the client model applying that message has, for every plain replicated component of every entity it starts to hold, exactly the current value on the server (C07_history_complete_state_values, across both models).',
         "design_ref": "DESIGN.md §7 C07",
         "note": "The requirement 'ClientTicks exists only on authorized clients' (Bevy required components) is modelled as a flag and tied by the lock-step comparison.",
         "technique": "Lean 4 proof (per-run theorems about executable server/client protocol models) + lock-step model/implementation correspondence on real traces + property oracle on the implementation",
@@ -532,7 +538,7 @@ MANIFEST_TEXT = {
                 "The one-step lemma is decided by the kernel over the complete finite state space (2 policies x 12 cells x 4 ghosts x 4 ops) and "
                 "lifted by induction; the failed first attempt exposed defect F19. Over ALL histories of the whole server (joint model, any number of "
                 "clients; C08_history_gain_lose): an entity a client holds and must not hold after a frame is in DESPAWNS of that frame's update "
-                "message, one it does not hold and may see is in CHANGES (whole), per client. The model is run in lock step with the real component on "
+                "message, one it does not hold and may see is in CHANGES (whole), per client; the client model applying the message has exactly the server's values for the plain components of a gained entity (C08_history_gained_entity_values). The model is run in lock step with the real component on "
                 "thousands of generated histories per run, and the no-hidden-data oracle is evaluated on the decoded real messages.",
         "design_ref": "DESIGN.md §7 C08",
         "note": "The lifting from one entity's cell to the whole component (independence of entities) and the position of the visibility calls "
